@@ -49,6 +49,7 @@ class Feat:
         self.item_refs = True       # parameter formulas may return extra references
         self.partial = False        # formulas that fail naturally for some arguments (12 // x)
         self.item_reads_cells = False   # parameter formulas may compute a returned reference with a cells
+        self.item_reads_refs = False    # parameter formulas may read a reference of the space
         self.__dict__.update(kw)
 
 
@@ -482,6 +483,23 @@ def gen_model_ops(draw, feat, G=None):
         emit(["new_cells", p, gen_cells_def(draw, G, sp, n, feat)])
     # a parameter formula whose returned reference is computed by a cells of the space (a leaf cells: it calls
     # nothing but itself): the instance depends on that element
+    if feat.items and feat.item_refs and feat.item_reads_refs:
+        # ... or reads a reference of the space by name
+        for p in paths:
+            sp = G.space(tuple(p))
+            f = sp.formula
+            def _refval(n, sp=sp):
+                fr = G.find_ref(sp, n)
+                r = fr[1] if fr else G.refs.get(n)
+                return getattr(r, "value", r)
+            names = [n for n in visible_refs(G, sp) if type(_refval(n)) is int] if f is not None else []
+            if f is None or not f.get("ret") or not f["ret"].get("refs") or not names:
+                continue
+            if draw(st.integers(0, 3)) != 0:
+                f2 = {"params": f["params"], "form": f["form"],
+                      "ret": {"base": f["ret"].get("base"),
+                              "refs": {"k0": ["bin", "+", f["ret"]["refs"]["k0"], ["name", draw(st.sampled_from(names))]]}}}
+                emit(["set_formula", p, f2])
     if feat.items and feat.item_refs and feat.item_reads_cells:
         for p in paths:
             sp = G.space(tuple(p))
